@@ -1541,7 +1541,7 @@ def check_tree_set(rng: random.Random, name: str, roots: list[Any], res: SearchR
 
 def search_identity(ctx: Ctx, real_descs: list[dict[str, Any]], gen_descs: list[dict[str, Any]]) -> SearchResult:
 	rng = ctx.sub_rng('identity')
-	res = SearchResult('identity-valued runs vs independent property walk on the real Procedure: real modules, generated programs, well-formed synthetic trees; shared Procedure, repeated / nested / after-failure runs; WF of every tree and class')
+	res = SearchResult('identity-valued runs vs independent property walk on the real Procedure: real modules, generated programs, well-formed synthetic trees; shared Procedure, repeated / nested / after-failure runs; handler layouts fallback / dedicated / mixed; handlers edit the lists they receive in place (every event owns its lists) and in a third of the tree sets some classes return None / 0 / "" / [] / False / () (a result like any other); WF of every tree and class')
 	app = common.MemApp(ctx.tmpdir())
 	hist: Counter[str] = Counter()
 	seen: set[str] = set()
